@@ -331,13 +331,16 @@ def cases(tier, seed):
             {'indent': 1, 'depth': 2, 'max_seq_len': 3, 'sort_dict_keys': True}]
     entries = ['pprint', 'cpprint', 'PrettyPrinter.pformat', 'PrettyPrinter.pprint', 'defaults']
     n = 0
+    block = 0
     for vname in VALUES:
         if vname.startswith('late'):
             continue
         for entry in entries:
+            block += 1
             for ci, cfg in enumerate(cfgs):
                 n += 1
-                if tier == 'quick' and ci != n % len(cfgs) and ci != 0:
+                # quick: the default configuration plus one of the others in turn
+                if tier == 'quick' and ci != block % len(cfgs) and ci != 0:
                     continue
                 if tier == 'quick' and vname in ('int', 'nested') and ci != 0:
                     continue
